@@ -170,6 +170,11 @@ static int URI_FUNC(RemoveBaseUriImpl)(URI_TYPE(Uri) * dest,
 					/* NOOP */
 	/* [07/50]	   if (A.authority != Base.authority) then */
 					if (!URI_FUNC(EqualsAuthority)(absSource, absBase)) {
+						/* Without authority the source cannot be reached from a base
+						 * that has one unless the reference keeps the scheme */
+						if (!URI_FUNC(IsHostSet)(absSource) && URI_FUNC(IsHostSet)(absBase)) {
+							dest->scheme = absSource->scheme;
+						}
 	/* [08/50]	      T.authority = A.authority; */
 						if (!URI_FUNC(CopyAuthority)(dest, absSource, memory)) {
 							return URI_ERROR_MALLOC;
